@@ -515,11 +515,34 @@ def explore_and_compare(ck, exe):
                               detail="%s\ntrace: %s\nchoices: %s\nargs: %s" % (why, t["trace"], t["choices"], " ".join(t["args"]))))
     if not traces:
         ck.broken.append(dict(name="correspondence Strand.run vs implementation", detail="harness produced no traces"))
+    # ---- "consecutive jobs are ordered by happens-before": this clause is about memory orders, which the sequentially
+    # consistent FIBER exploration above cannot see.  It is decided by C04's machinery (RAOwn: ownership transfer through
+    # the strand's jobs word is race free under the orders translated from src/exe/strand.cpp; TSan program strand_jobs).
+    # That part of C04 runs here too and its strand verdicts count for C07.
+    from checks import c04
+    sub = runner.Check("C04", ck.tier, ck.seed)
+    c04.main(sub)
+    n_h = n_b = 0
+    for h in sub.hits:
+        if "strand" in h["what"].lower():
+            n_h += 1
+            ck.hits.append(dict(what="[C04 machinery, happens-before between strand jobs] %s" % h["what"], key="viaC04:%s" % h.get("key"),
+                                replay=dict(h.get("replay") or {}, via="C04")))
+    for b in sub.broken:
+        if "strand" in b["name"].lower():
+            n_b += 1
+            ck.broken.append(dict(name="[C04 machinery] " + b["name"], detail=b["detail"]))
+    ck.cov["happens_before_clause_via_C04"] = dict(strand_race_reports=n_h, strand_obligations_broken=n_b,
+                                                   obligations="c04_skeleton_strand, c04_strand_orders_ok, c04_ownership_transfer_race_free",
+                                                   tsan_program="strand_jobs")
 
 
 def replay(ck, path):
     d = json.load(open(path))
     rp = d.get("replay") or {}
+    if rp.get("via") == "C04":
+        from checks import c04
+        return c04.replay(ck, path)
     if not rp.get("scenario") or rp.get("choices") is None:
         print("nothing to replay: %s" % json.dumps(d)[:2000])
         return 0
